@@ -293,7 +293,7 @@ def malformed_case(r, ctx, i):
 
 def release_case(r, ctx, i):
     text, decide = gen_stream(r, False, ndocs=r.choice([2, 3, 6]))
-    mode = r.choice(['close', 'drop', 'error', 'exhaust', 'break_in_for', 'mid_document', 'error_mid_document'])
+    mode = r.choice(['close', 'drop', 'error', 'exhaust', 'break_in_for', 'mid_document', 'error_mid_document', 'unstarted_close', 'unstarted_drop'])
     if mode == 'error':
         text += '--- @bad\n'
     if mode in ('mid_document', 'error_mid_document'):
@@ -306,8 +306,16 @@ def release_case(r, ctx, i):
             case = {'mode': mode, 'op': op, 'loader': lname, 'binary': binary, 'text': text if len(text) < 1500 else None}
             ctx.crumb({'kind': 'release', 'mode': mode, 'op': op, 'loader': lname})
             g = getattr(yaml, op)(s, Loader=getattr(yaml, lname))
+            # lazy also means: calling the function reads nothing; the first characters are requested by the first next()
+            ctx.stat('call_time_read_probes')
+            if s.calls:
+                ctx.violation(case, {'what': 'the stream was read before the first item was requested', 'reads_at_call_time': s.calls[:4]}, None)
             try:
-                if mode == 'close':
+                if mode == 'unstarted_close':
+                    g.close()
+                elif mode == 'unstarted_drop':
+                    pass
+                elif mode == 'close':
                     next(g)
                     next(g)
                     g.close()
